@@ -37,4 +37,5 @@ typedef unsigned __int128 v_u128;
 static inline size_t spec_ci_len(const void *b, size_t a) { return SPEC_CI_LEN(b, a); }
 static inline v_u128 spec_ci_val(const void *b, size_t n) { return SPEC_CI_VAL(b, n); }
 static inline int spec_ci_fits64(const void *b, size_t n) { return SPEC_CI_VAL(b, n) <= (v_u128)UINT64_MAX; }
+static inline int spec_ci_fitsint(const void *b, size_t n) { return SPEC_CI_VAL(b, n) <= (v_u128)INT_MAX; }
 #endif
